@@ -435,6 +435,8 @@ class Models:
     # =============================================================== attributes
     def get_attr(self, obj, attr, node):
         I = self.I
+        if attr == "__class__" and not isinstance(obj, (QtyV, UnitV, RateV, ObjV, ClsV)):
+            return self.type_of(obj, node)
         if isinstance(obj, QtyV):
             if attr == "_amount":
                 if obj.amount is None:
